@@ -162,7 +162,8 @@ PROPS = {
         "units": [U('pyvc.frames', 'cook_publication_order', 'cook.publication_order'),
                   U('pyvc.frames', 'render_write_frame', 'render.write_frame'),
                   U('pyvc.frames', 'instance_state', 'instance_state'),
-                  U('pyvc.frames', 'search_path_frame', 'search_path_frame'), FRESH],
+                  U('pyvc.frames', 'search_path_frame', 'search_path_frame'),
+                  U('pyvc.ordered', 'unit', 'compile_path.no_set_iteration'), FRESH],
         "not_decided": ["thread interleavings (schedule-quantified; no schedule exploration in this family)",
                         "cross-process identity of output (follows from alpha-equivalence of generated "
                         "code; not checked yet)"],
@@ -231,7 +232,8 @@ PROPS = {
         "compilation is checked to reject the same template with that token and offset.",
         [K("k3::S-Deferred"), K("k3::S-Deferred-twice"), K("k3::S-Strict-rejects"),
          U('pyvc.frames', 'strict_reads_frame', 'strict.reads_frame'),
-         U('pyvc.frames', 'strict_identity', 'strict_identity', needs_k3=True)],
+         U('pyvc.frames', 'strict_identity', 'strict_identity', needs_k3=True),
+         U('pyvc.frames', 'cook_error_frame', '_cook.error_frame')],
         ["pickle round trip of ExpressionError (bounded stand-in pending)"]),
     "C20": k3prop(
         "Text-mode templates: the emitted code is proved to copy the source text ('<', '&', tags "
@@ -322,6 +324,7 @@ PROPS = {
                       "CPython's re engine, the encoding of Python semantics in DESIGN.md 2.3. "
                       "Not decided: 'valid templates are never rejected'; message formatting.",
         "units": TOKEN + [K("k3::S-Strict-rejects"), K("k3::S-Deferred-twice"), K("parser.py::match_tag"),
+                          U('pyvc.frames', 'cook_error_frame', '_cook.error_frame'),
                           U('pyvc.frames', 'decorator_audit', 'decorator_audit')],
         "not_decided": ["'A template without such an error is never rejected' (needs a notion of "
                         "validity independent of the implementation)",
